@@ -100,6 +100,66 @@ CHECKS.update({
         "technique": "named-axis abstract interpretation with usage classes",
     },
 })
+CHECKS.update({
+    "C01": {
+        "text": "Registry exactness (abstract evaluation of _str_to_gemini for every listed name: class by prefix, ovo by suffix, no fall-through, "
+                "no unlisted handled name, estimator constraint = the list), ovo plumbing, and the pairwise-structure clause for TV/MMD/"
+                "Wasserstein. That each closed form numerically equals the named divergence is NOT decided.",
+        "note": "trusted: the <distance>_<ova|ovo> naming convention stated in the property; numpy semantics table.",
+        "technique": "abstract evaluation of the registry + named-axis abstract interpretation",
+    },
+    "C06": {
+        "text": "Shrinkage wiring (prox after the optimiser step, threshold canonically alpha*optimiser learning rate, in-place copy output i -> "
+                "input i), selection reads the matrices inference multiplies the features with (row norm over the non-feature axis), group "
+                "operators treat each group as one flattened row, groups_ computed by check_groups before training. Numerical inertness and "
+                "check_groups' partition logic are NOT decided.",
+        "note": "trusted: np.copyto / np.linalg.norm semantics.",
+        "technique": "structural wiring rules with canonical-form comparison of the threshold + named-axis interpretation of the selection",
+    },
+    "C07": {
+        "text": "Termination obligations (guard-normalisation idioms dominating the geometric growth of alpha, bounded inner loop), definite "
+                "assignment with loop-entry facts from constants / validated intervals, lock-step histories in one straight-line block after "
+                "the abort, defaults with warnings, best-weights rule by control dependence with element-wise copies, restore order. "
+                "Comparator directions beyond those listed and numerical history values are NOT decided.",
+        "note": "trusted: validated hyper-parameter domains; _batchify yields at least one batch (C10).",
+        "technique": "loop-progress obligations + definite-assignment dataflow + control-dependence and dominator rules on the CFG",
+    },
+    "C11": {
+        "text": "Forwarding of every hyper-parameter into the GEMINI constructor of each family, fixed objectives of convenience estimators, "
+                "abstract evaluation of get_gemini for None / every name / an instance, dispatch structure of the four affinity "
+                "functions (callable / precomputed with raise / named with parameter dictionary), single point of use, pass-through of the "
+                "user's y. Numerical equality of fitted models is NOT decided. One listed known finding (Kauri warns instead of raising).",
+        "note": "trusted: pairwise_kernels / pairwise_distances implement the named kernels and metrics.",
+        "technique": "forwarding tables + abstract evaluation + who-may-read rule",
+    },
+    "C14": {
+        "text": "Index spaces of the whole constraint machinery by named-axis interpretation through a decorated fit (graph positions vs sample "
+                "ids vs batch rows), sign/rows of the injected gradient by canonical linear forms and mirror comparison, validation wiring. The "
+                "breadth-first component search itself is trusted beyond its index spaces.",
+        "note": "trusted: csgraph.breadth_first_order returns node ids of the adjacency matrix it is given.",
+        "technique": "named-axis abstract interpretation (index spaces) + canonical linear forms + mirror comparison",
+    },
+    "C15": {
+        "text": "Mask inertness (who-may-read X), leaf count and softmax/outer-product structure, sorted biases and inverse permutation by argsort "
+                "parity, and an order-domain decision of find_active_points against `exists cut: min < cut < max` on all weak orderings. "
+                "The soft-binning weights and the zero-temperature limit are NOT decided.",
+        "note": "trusted: min/max/any/all depend on their argument only through comparisons.",
+        "technique": "order-domain abstraction (finite enumeration of weak orderings) + structural rules",
+    },
+    "C19": {
+        "text": "Comparator/child agreement between the printer and predict, name lookup by feature index with a guard that bounds the largest "
+                "used index (canonical form), guards before output. The textual round trip is NOT decided.",
+        "note": "trusted: Tree.predict semantics (C09-f).",
+        "technique": "sibling comparison + canonical-form guard implication + dominators",
+    },
+    "C20": {
+        "text": "RNG discipline per generator function, documented shapes and label/component index spaces by named-axis interpretation with "
+                "symbolic n, K, d, parameter-kind flow (variance vs standard deviation), rejection guards dominating sampling. "
+                "Distributional correctness is NOT decided.",
+        "note": "trusted: numpy draw signatures.",
+        "technique": "reaching definitions + named-axis abstract interpretation + parameter-kind taint + dominators",
+    },
+})
 NOT_APPLICABLE = {
     "C05": "exact-minimiser property over all real matrices: value-level, no structural clause that is both necessary and "
            "non-brittle beyond what C06 checks (DESIGN.md §7)",
